@@ -229,10 +229,17 @@ def run(ctx) -> None:
                         if got != ((not vals[0]) and vals[1]):
                             ok, msg = False, f"delay is `{render(d)}`: it must be true exactly for a non-tuple MOVED_FROM (a delayed non-move stalls the stream; an undelayed MOVED_FROM cannot be paired)"
         ctx.check(ok, RQ, f"run {desc}", msg, f"{rf.module.relpath}:{puts[0].line if puts else rf.node.lineno}")
-    from .c17 import get_paths, revalidate_head
+    from .c17 import delay_elapsed, get_paths, revalidate_head
 
     qpaths, qci = get_paths(P)
     revalidate_head(ctx, RV, qpaths, qci)
+    RDL = ctx.rule(
+        "C08/first-half-waits-the-full-delay",
+        "an unpaired MOVED_FROM is handed out by the delay queue only after a test, made after the last blocking operation, that its "
+        "delay has elapsed (shared with C17): until then a MOVED_TO of a later read batch can still pull it out and pair it",
+        floor=1,
+    )
+    delay_elapsed(ctx, RDL, P, qpaths, qci)
     rm = qci.methods.get("remove")
     if rm is None:
         raise AnalysisError("anchor vanished: DelayedQueue.remove")
@@ -254,6 +261,7 @@ def run(ctx) -> None:
 
 IB = "observers/inotify_buffer.py"
 VARIANTS = [
+    dict(name="B single timed wait instead of the sleep loop", expect="fire", rule="C08/first-half-waits-the-full-delay", edits=[("utils/delayed_queue.py", "                while time_left > 0:\n                    time.sleep(time_left)\n                    time_left = insert_time + self.delay_sec - time.time()\n", "                if time_left > 0:\n                    time.sleep(time_left)\n")]),
     dict(name="B unmatched MOVED_TO dropped", expect="fire", rule="C08/placed-exactly-once", edits=[(IB, "                        logger.debug(\"could not find matching move_from event\")\n                        grouped.append(inotify_event)", "                        logger.debug(\"could not find matching move_from event\")")]),
     dict(name="B delay everything", expect="fire", rule="C08/put-exactly-once", edits=[(IB, "self._queue.put(inotify_event, delay=delay)", "self._queue.put(inotify_event, delay=True)")]),
     dict(name="B delay nothing", expect="fire", rule="C08/put-exactly-once", edits=[(IB, "self._queue.put(inotify_event, delay=delay)", "self._queue.put(inotify_event)")]),
